@@ -151,6 +151,16 @@ Example C09_nonvacuous_values :
   parse_uint 32 [52;50;57;52;57;54;55;50;57;54] = None.
 Proof. vm_compute. repeat split; reflexivity. Qed.
 
+(* ... clamping of private keys (FromMaybeZeroHex): 0100..00 and 00..0080 are
+   not the zero key and both become 00..0040; the zero key stays zero (= no
+   key); ff..ff becomes f8ff..ff7f; a clamped key is left alone ... *)
+Example C09_nonvacuous_clamp :
+  parse_private (hex64 (2 ^ 248)) = Some 64 /\ parse_private (hex64 128) = Some 64 /\
+  parse_private (hex64 (7 * 2 ^ 248 + 128)) = Some 64 /\
+  parse_private (hex64 0) = Some 0 /\ parse_private (hex64 64) = Some 64 /\
+  parse_private (hex64 (2 ^ 256 - 1)) = Some (2 ^ 256 - 1 - 7 * 2 ^ 248 - 128).
+Proof. vm_compute. repeat split; reflexivity. Qed.
+
 (* ... and a history that meets the premises of the theorems: two peers, a
    prefix moving between them, an invalid line in the middle of a set (the
    lines before it stay applied), the device's own key as a peer, a
